@@ -398,3 +398,47 @@ Definition stack_verdict (c : stack_case) : verdict :=
      mseq Nat.eqb (stack s') (sk_obs_stack c) && all2 Nat.eqb (stack s') (sk_obs_stack c) &&
      all2 (fun e f => Nat.eqb (fst (fst e)) (fst f) && Nat.eqb (snd (fst e)) (snd f)) (log s') (sk_obs_log c)
   then Agree else Differ.
+
+(* ---- C19: prune ---- *)
+From Lekkersim Require Import Prune.
+
+Inductive hshape := SLeaf (npins : nat) | SSub (subs : list hshape).
+
+Fixpoint shape_of (c : circ BQCf) : hshape :=
+  match c with
+  | Leaf L => SLeaf (List.length (l_pins L))
+  | Sub subs _ _ => SSub (map shape_of subs)
+  end.
+
+Fixpoint shape_eqb (a b : hshape) : bool :=
+  match a, b with
+  | SLeaf n, SLeaf m => Nat.eqb n m
+  | SSub l, SSub l' =>
+      (fix go (l l' : list hshape) : bool :=
+         match l, l' with
+         | [], [] => true
+         | x :: r, y :: r' => shape_eqb x y && go r r'
+         | _, _ => false
+         end) l l'
+  | _, _ => false
+  end.
+
+Record prune_case := {
+  pr_circ : hcirc;
+  pr_ret : bool;                 (* value returned by prune() *)
+  pr_shape : hshape;             (* structures left, per level, in order *)
+  pr_obs : obs lmx               (* solve() after prune() *)
+}.
+
+Definition prune_verdict (c : prune_case) : verdict :=
+  let ci := circ_of (pr_circ c) in
+  if Bool.eqb (dead ci) (pr_ret c) && shape_eqb (shape_of (prune ci)) (pr_shape c) then
+    if dead ci then (match pr_obs c with Raised => BothReject | Obs _ => Agree end) else
+    (* the circuit built without the dead branches decides; the unpruned hierarchy (which cannot
+       even be solved when it contains an empty solver) must agree too whenever it is defined *)
+    match obs_verdict (solve_hier seq_pick (prune ci)) (top_expo ci) (pr_obs c),
+          obs_verdict (solve_hier seq_pick ci) (top_expo ci) (pr_obs c) with
+    | Agree, Differ => Differ
+    | v, _ => v
+    end
+  else Differ.
